@@ -477,7 +477,11 @@ pub fn oracle_c11(si: &ScriptInfo, tr: &Trace, probe_round: usize) -> Vec<Violat
             }
         }
         if !small_backlog && tr.rounds > probe_round + 1000 && (done as f64) < 0.5 * 23.0 * elapsed_s {
-            out.push(viol("C11.live", "C11.live:no-progress".into(), format!("side {} had {} B queued when the probes were submitted (t={} ms) and still has {} B at the horizon (t={} ms): {} B in {:.0} s is less than half of what the minimum rate s/64 = 23 B/s moves; rate {} B/s; {}", side, at_probe.sbs, at_probe.t_ms, end.sbs, end.t_ms, done, elapsed_s, end.probe.send_rate, what)));
+            // attribution (known finding D28): the sender sits at the floor rate, has moved less than half of what even that rate allows, and owes acknowledgements
+            // to a peer that keeps streaming (every flush with credit is spent on an acknowledgement frame)
+            let peer_streams = tr.subs.iter().filter(|x| x.side == 1 - side && x.round >= probe_round).count() >= 200;
+            let sig = if end.probe.send_rate <= 23.0 && peer_streams { "C11.live:no-progress:pinned-at-the-floor-rate-while-acknowledging-a-streaming-peer" } else { "C11.live:no-progress" };
+            out.push(viol("C11.live", sig.into(), format!("side {} had {} B queued when the probes were submitted (t={} ms) and still has {} B at the horizon (t={} ms): {} B in {:.0} s is less than half of what the minimum rate s/64 = 23 B/s moves; rate {} B/s; {}", side, at_probe.sbs, at_probe.t_ms, end.sbs, end.t_ms, done, elapsed_s, end.probe.send_rate, what)));
         }
     }
     out
